@@ -615,7 +615,57 @@ func init() {
 					return
 				}
 			}
-
+			// nested declaration scopes: r > (e1 > e2 > e3), e4 - e1 binds a URI of the root again (or another
+			// one), e2 / e3 inside it carry declarations of their own, e4 comes after e1 has ended and uses what
+			// the root declared; every combination of declarations and of the prefixes in scope for each name
+			{
+				rootDecls := []string{` xmlns:o="u"`, ` xmlns="u"`, ` xmlns:o="u" xmlns="d"`}
+				e1Decls := []string{"", ` xmlns:p="u"`, ` xmlns="u"`, ` xmlns:o="w"`, ` xmlns:p="u" xmlns:q="u"`}
+				inDecls := []string{"", ` xmlns:z="zz"`, ` xmlns:p="v"`, ` xmlns:q="u"`, ` xmlns=""`, ` xmlns:o="u"`}
+				declares := func(decls, p string) bool {
+					if p == "" {
+						return true // unprefixed names are always fine
+					}
+					return strings.Contains(decls, "xmlns:"+p+"=")
+				}
+				for _, rd := range rootDecls {
+					for _, d1 := range e1Decls {
+						for _, d2 := range inDecls {
+							for _, d3 := range inDecls {
+								if d3 != "" && d2 != "" && d3 != d2 && c.Quick() {
+									continue // quick: the two inner declarations are equal, or one of them is absent
+								}
+								for _, p1 := range []string{"", "o", "p"} {
+									for _, p2 := range []string{"", "o", "p", "q"} {
+										for _, p4 := range []string{"", "o"} {
+											if !declares(rd+d1, p1) || !declares(rd+d1+d2, p2) || !declares(rd, p4) {
+												continue
+											}
+											q := func(p string) string {
+												if p == "" {
+													return ""
+												}
+												return p + ":"
+											}
+											attr := ""
+											if declares(rd, "o") {
+												attr = ` o:k="1"`
+											}
+											doc := "<r" + rd + "><" + q(p1) + "a" + d1 + "><" + q(p2) + "b" + d2 + "><c" + d3 + "/></" + q(p2) + "b></" + q(p1) + "a><" + q(p4) + "e" + attr + "><" + q(p4) + "f/></" + q(p4) + "e></r>"
+											if !try(c08Case{Kind: "xml", Doc: doc}) {
+												return
+											}
+											if c.Shard == 0 {
+												c.Count("nested_scope_documents", 1)
+											}
+										}
+									}
+								}
+							}
+						}
+					}
+				}
+			}
 		},
 		Replay: func(raw json.RawMessage) (string, string) {
 			var cs c08Case
